@@ -12,7 +12,7 @@ matters for "which objects may be written" is kept:
 * `store obj f src` is every kind of mutation of the object in `obj`: attribute assignment, augmented
   assignment, item assignment, `list.append/pop/...`, `dict.update/...`.
 
-The checker `check` is an abstract interpreter over three tags; `Proofs/Effect.lean` proves that a checked
+The checker `check` is an abstract interpreter over four tags; `Proofs/Effect.lean` proves that a checked
 program never writes an object that existed before the call (in particular not the state, payload or
 component it was given, nor any module- or class-level object).
 -/
@@ -157,13 +157,46 @@ def Tag.deep : Tag → Bool
   | .fresh => true
   | _ => false
 
-abbrev AEnv := List Tag
+/-- abstract environments: a binary trie indexed by the variable number (variable 0 at the root, odd numbers in the
+    left subtree, even ones in the right), so that the kernel evaluates a lookup or an update in `log` steps.  A `leaf`
+    stands for "every variable below is `shared`": looking up there gives `shared` and an update there is dropped,
+    which errs on the safe side. -/
+inductive AEnv where
+  | leaf
+  | node (t : Tag) (l r : AEnv)
+  deriving DecidableEq, Repr, Inhabited
 
-def tagOf (e : AEnv) (x : Var) : Tag := e.getD x .shared
+def tagOf : AEnv → Var → Tag
+  | .leaf, _ => .shared
+  | .node t l r, x => if x = 0 then t else if x % 2 = 1 then tagOf l (x / 2) else tagOf r (x / 2 - 1)
 
-def setTag (e : AEnv) (x : Var) (t : Tag) : AEnv := e.set x t
+def setTag : AEnv → Var → Tag → AEnv
+  | .leaf, _, _ => .leaf
+  | .node t l r, x, v =>
+    if x = 0 then .node v l r
+    else if x % 2 = 1 then .node t (setTag l (x / 2) v) r
+    else .node t l (setTag r (x / 2 - 1) v)
 
-def joinEnv (a b : AEnv) : AEnv := List.zipWith Tag.join a b
+def joinEnv : AEnv → AEnv → AEnv
+  | .node t l r, .node t' l' r' => .node (t.join t') (joinEnv l l') (joinEnv r r')
+  | _, _ => .leaf
+
+/-- the complete trie of the given depth with every variable `shared` (holds `2^d - 1` variables) -/
+def AEnv.full : Nat → AEnv
+  | 0 => .leaf
+  | d + 1 => .node .shared (AEnv.full d) (AEnv.full d)
+
+/-- the environment a program with `nvars` variables starts from -/
+def AEnv.init (nvars : Nat) : AEnv := AEnv.full (nvars.log2 + 2)
+
+def AEnv.size : AEnv → Nat
+  | .leaf => 0
+  | .node _ l r => l.size + r.size + 1
+
+/-- every variable `prim` (the environment after `abort`, which no execution reaches) -/
+def AEnv.allPrim : AEnv → AEnv
+  | .leaf => .leaf
+  | .node _ l r => .node .prim l.allPrim r.allPrim
 
 /-- least fixpoint of a loop body by iteration; `none` when the body is rejected or the fuel runs out -/
 def iter (f : AEnv → Option AEnv) : Nat → AEnv → Option AEnv
@@ -194,18 +227,18 @@ def check (T : List Field) : Stmt → AEnv → Option AEnv
   | .mov dst src, e => some (setTag e dst (tagOf e src))
   | .havoc dst, e => some (setTag e dst .prim)
   | .ext dst, e => some (setTag e dst .shared)
-  | .abort, e => some (List.replicate e.length .prim)
+  | .abort, e => some e.allPrim
   | .call dst, e => some (setTag e dst .shared)
   | .seq a b, e => (check T a e).bind (check T b)
   | .choice a b, e =>
     match check T a e, check T b e with
     | some ea, some eb => some (joinEnv ea eb)
     | _, _ => none
-  | .loop a, e => iter (check T a) (3 * e.length + 2) e
+  | .loop a, e => iter (check T a) (3 * e.size + 2) e
 
 /-- a reducer / view body with `nvars` variables, all of which (arguments, `self`, globals) start as `shared` -/
 def wellFormed (T : List Field) (nvars : Nat) (p : Stmt) : Bool :=
-  (check T p (List.replicate nvars .shared)).isSome
+  (check T p (AEnv.init nvars)).isSome
 
 /-- a program `p` together with the procedure `body` its `call` statements run -/
 def wellFormedWith (T : List Field) (nvars : Nat) (body p : Stmt) : Bool :=
@@ -213,7 +246,7 @@ def wellFormedWith (T : List Field) (nvars : Nat) (body p : Stmt) : Bool :=
 
 /-- the tag the checker derives for variable `x` at the end -/
 def resultTag (T : List Field) (nvars : Nat) (p : Stmt) (x : Var) : Option Tag :=
-  (check T p (List.replicate nvars .shared)).map (tagOf · x)
+  (check T p (AEnv.init nvars)).map (tagOf · x)
 
 /-- the fields the program may store to (for the correspondence with observed state changes) -/
 def storeFields : Stmt → List Field
